@@ -374,7 +374,7 @@ fn opcodes(e: &E, out: &mut Vec<Op>) {
     }
 }
 
-fn gen_expression(rng: &mut StdRng, loose: bool) -> Expression {
+pub(crate) fn gen_expression(rng: &mut StdRng, loose: bool) -> Expression {
     let mut ops = vec![];
     let d = rng.gen_range(1..4);
     opcodes(&gen_expr(rng, d, loose), &mut ops);
